@@ -39,7 +39,7 @@ def fieldRename (graphqlName rustName : String) : Option String :=
 
 inductive Normalization where
   | none | rust
-  deriving Repr, BEq, DecidableEq, Inhabited
+  deriving Repr, DecidableEq, Inhabited
 
 namespace Normalization
 def camelCase (n : Normalization) (cs : CaseFns) (s : String) : String :=
